@@ -47,6 +47,9 @@ def bytes_of(parts):
 
 def run_bin(binpath, lines, timeout=900, env=None, args=()):
     e = dict(os.environ)
+    # the extracted code recurses deeply (non tail-recursive list functions): a large minor heap keeps the number
+    # of stack-scanning minor collections low
+    e.setdefault("OCAMLRUNPARAM", "s=4M")
     if env:
         e.update(env)
     try:
@@ -112,7 +115,7 @@ def gen_reader_cases(ctx, consts):
     def add(kind, enc, ver, low, chunks, parts, ops):
         cases.append((kind, "rd %s %s %d %s %s %s" % (enc, ver, low, chunks, spec_of(parts), " ".join(ops))))
 
-    n_target = 330 if not thorough else 12000
+    n_target = 230 if not thorough else 12000
     combos = []
     for cname, ctext in constructs:
         for enc in encs:
@@ -129,7 +132,20 @@ def gen_reader_cases(ctx, consts):
                 for d in offsets:
                     combos.append((cname, cb, enc, padb, tname, base + d))
     rng.shuffle(combos)
-    for (cname, cb, enc, padb, tname, npad) in combos[:n_target]:
+    if not thorough:
+        # every run: each construct (one seeded encoding) with its first / second character in the LAST position of the
+        # character buffer, of the doubled buffer, of the raw buffer and at the low-water mark; the rest is a seeded sample
+        must = []
+        seen = set()
+        for t in combos:
+            cname, cb, enc, padb, tname, npad = t
+            base = {"cb": CB, "cb2": 2 * CB, "rb": RB // len(padb), "lw": (RB - LW) // len(padb), "start": 3}[tname]
+            if tname != "start" and npad - base in (-1, 0) and (cname, tname, npad - base) not in seen:
+                seen.add((cname, tname, npad - base))
+                must.append(t)
+        rest = [t for t in combos if t not in must]
+        combos = must + rest[:max(0, n_target - len(must))]
+    for (cname, cb, enc, padb, tname, npad) in combos[:max(n_target, 0) if thorough else len(combos)]:
         ops = list(rng.choice(opsets))
         skip = max(0, npad - rng.choice([0, 0, 1, 2, 5]))
         ops = ["G%d" % skip] + ops
@@ -310,6 +326,11 @@ def run(ctx):
             ctx.note("replay model: %s" % model)
             if rc != 0 or impl != model:
                 ctx.violation("divergence", dict(r, impl=impl, model=model))
+            elif reqs[0].split()[6:] == ["G"]:
+                a = reqs[0].split()
+                _, so, _ = run_bin(xm, ["spec %s %s %s" % (a[1], a[2], a[5])])
+                if not so[0].split()[1].startswith("bad") and impl[0].split()[0] != so[0].split()[0]:
+                    ctx.violation("divergence", dict(r, impl=impl, spec=so))
         else:
             keys = [" ".join(x.split()[:5]) for x in impl]
             if rc != 0 or len(set(keys)) != 1:
@@ -467,6 +488,21 @@ def run(ctx):
                                              "what": "implementation differs from the model and violates the Spec"})
         else:
             unexplained.append(i)
+    # neighbourhood search for a Spec-violating input: the same document and chunking with the single operation
+    # "deliver everything" must give eol_norm(decode(bytes))
+    if unexplained and not viol:
+        for i in unexplained[:10]:
+            a = reqs[i].split()
+            greq = " ".join(a[:6] + ["G"])
+            _, go, _ = run_bin(xh, [greq], env=henv, timeout=60)
+            _, so, _ = run_bin(xm, ["spec %s %s %s" % (a[1], a[2], a[5])])
+            if go and so and not so[0].split()[1].startswith("bad") and go[0].split()[0] != so[0].split()[0]:
+                viol += 1
+                ctx.violation("divergence", {"request": greq, "impl": go[0], "spec": so[0], "found_from": reqs[i],
+                                             "impl_original": impl[i], "model_original": model[i],
+                                             "what": "delivered characters differ from eol_norm(decode(bytes)): the "
+                                                     "implementation violates the Spec on this input"})
+                break
     if unexplained and not viol:
         i = unexplained[0]
         # same operations on the one-shot chunking: if the implementation's answers differ between chunkings the
